@@ -2,10 +2,10 @@
 # Apply every kept seeded change to /repo itself, run the check of its property, undo the change; one summary line per change.
 # Outputs go to a scratch directory (default /tmp/seedverify); /verif/evidence is not touched.
 # NEVER run anything else against /repo while this runs: the working tree of /repo is modified between apply and checkout.
-OUT=${1:-/tmp/seedverify}
+OUT=${1:-/tmp/seedverify}     # optional 2nd argument: glob over the seed ids (default: all)
 cd "$(dirname "$0")"
 mkdir -p "$OUT"
-for d in seeded/*/; do
+for d in seeded/${2:-*}/; do
   sid=$(basename "$d"); pid=${sid%-*}
   grep -q '"status": "obsolete' "$d/meta.json" && { echo "$sid obsolete (skipped)" >> "$OUT/summary.txt"; continue; }
   git -C /repo checkout -q -- .
